@@ -126,6 +126,37 @@ CHECKS = {
         design="DESIGN.md §4 C14",
         note="Trusted: the `member`/`desc_equal` predicates in the check. Subnormal near-misses are not generated (XLA:CPU flushes them to zero). 18 mutants (9 fix reversals).",
     ),
+    "C15": dict(
+        technique="property-based testing (Hypothesis) against scipy float64 references, exact enumeration, trapezoid quadrature and goodness-of-fit tests",
+        text="Generated parameterisations of all seven distribution classes: prob==exp(log_prob); total mass by exact enumeration "
+        "(discrete) or quadrature of exp(log_prob) incl. the squashing Jacobian; pointwise densities vs scipy.stats.norm and the "
+        "analytic Jacobian for arbitrary asymmetric bounds; samples (both sample() and sample_and_log_prob()) and mode in the "
+        "support; reported log-prob == log_prob(sample); 4000-sample KS / chi-square goodness of fit incl. joint independence of "
+        "product-law components (false alarm < 1e-9); entropy vs exact sums/quadrature; product laws == sums over components; flat "
+        "== sequence parameterisation.",
+        design="DESIGN.md §4 C15",
+        note="Trusted: scipy, JAX PRNG, distreqx as upstream (its documented tail approximation of sigmoid for x<-9 is tolerated). 12 mutants all caught.",
+    ),
+    "C16": dict(
+        technique="exhaustive enumeration of masks (n<=5 quick / 6 thorough) x seeded logits; property-based testing (Hypothesis) through policies",
+        text="Every non-empty mask for small n x logit draws (masked arg-max, ties, widely separated logits): masked Categorical "
+        "probabilities vs float64 renormalised softmax, -inf log-prob, allowed mode, 128 samples all allowed and likely allowed "
+        "actions seen; MultiCategorical masks (flat and sequence), Bernoulli masks; end-to-end through MLPActorCriticPolicy "
+        "(Discrete/MultiDiscrete/MultiBinary, output layers scaled up to 3000x) and MLPQPolicy (epsilon 0/0.05/0.25/1): key-less == "
+        "greedy mode and deterministic, keyed samples allowed, reported log-prob == evaluate_action's, non-greedy frequency <= "
+        "epsilon + 6 sigma with an independent 20000-key confirmation.",
+        design="DESIGN.md §4 C16",
+        note="Trusted: float64 softmax; JAX PRNG. 13 mutants all caught.",
+    ),
+    "C18": dict(
+        technique="round-trip property-based testing (Hypothesis) over policy classes x spaces x architectures x path spellings x overwrite histories; negative cases for shape mismatches",
+        text="serialize -> deserialize with the same constructor arguments and a different key in fresh temporary directories (with/"
+        "without .eqx, nested new directories, spaces, paths already holding an older checkpoint): every array leaf bit-identical "
+        "(dtype, shape, bytes) and equal outputs; loading into a policy with one architecture argument / observation / action "
+        "dimension changed or two arguments swapped must raise.",
+        design="DESIGN.md §4 C18",
+        note="Trusted: filesystem; Python-scalar fields compared at float32 precision. 6 mutants caught, 2 equivalent mutants discarded (equinox re-adds the suffix itself).",
+    ),
 }
 
 PENDING_REASON = "check not built yet in this round (planned, see DESIGN.md §8); not claimed until it is quiet on the unchanged tree"
